@@ -108,6 +108,18 @@ Definition compress_bond (i : nat) (ab : absorb) (l : list site) : option (list 
     end
   else None.
 
+(* tensor_compress_bond with `reduced` on the side of `other` (the SVD is taken of
+   T[other] alone; T[keep] is multiplied by the isometric factor, singular values
+   stay on `other`): T[keep] stays isometric towards `other` iff it was, its data
+   is replaced so its flag is cleared (this mode never sets a flag), T[other] is
+   left non-isometric *)
+Definition compress_bond_onto (keep other : nat) (l : list site) : option (list site) :=
+  if (keep <? length l) && (other <? length l) && ((S keep =? other) || (S other =? keep)) then
+    let s := get l keep in
+    Some (setS (setS l other blank) keep
+            (if keep <? other then mkS (gL s) false FNone else mkS false (gR s) FNone))
+  else None.
+
 (* tensor_network_1d_compress(method='direct') on sites si..sf:
    not reversed: T[si] centre, T[si+1..sf] right-isometric and flagged;
    reversed: T[si..sf-1] left-isometric and flagged, T[sf] centre *)
@@ -259,12 +271,19 @@ Definition widen (r : rcd) (i : nat) : rcd :=
   | r => r
   end.
 
-(* compress_site(i, canonize=...) *)
+(* compress_site(i, canonize=...): left_compress_site(i-1) then right_compress_site(i+1);
+   with canonize the truncation is decided from the centre (reduced='right' / 'left'),
+   without it each neighbour is SVD'd on its own (absorb right / left, flags set) *)
 Definition compress_site (i : nat) (canonize : bool) (calc : nat * nat) (st : mps) : option mps :=
   let st := decorated st in
   bind (if canonize then canonicalize i i calc st else Some st) (fun st1 =>
-  bind (if 0 <? i then compress_bond (pred i) ARight (sites st1) else Some (sites st1)) (fun l1 =>
-  bind (if S i <? length l1 then compress_bond i ALeft l1 else Some l1) (fun l2 =>
+  bind (if 0 <? i then
+          (if canonize then compress_bond_onto (pred i) i (sites st1)
+           else compress_bond (pred i) ARight (sites st1))
+        else Some (sites st1)) (fun l1 =>
+  bind (if S i <? length l1 then
+          (if canonize then compress_bond_onto (S i) i l1 else compress_bond i ALeft l1)
+        else Some l1) (fun l2 =>
   Some (mkM l2 (if canonize then rec st1 else widen (rec st1) i))))).
 
 (* singular_values / schmidt_values / entropy / schmidt_gap / bipartite_schmidt_state *)
